@@ -14,7 +14,7 @@ pub struct Context { pub w: Waker }
 impl Context { pub fn waker(&self) -> (r: &Waker) ensures *r == self.w { &self.w } }
 pub enum Poll<T> { Ready(T), Pending }
 /// what the stream did to its events source, in order (ghost)
-pub enum Step { Consumed(u32, bool), AskedKeepRunning(u32, bool), RegisteredWaker(u32) }
+pub enum Step { Consumed(u32, bool), AskedKeepRunning(u32, bool), RegisteredWaker(u32), DroppedResources(u32) }
 /// abstract ChannelConsumer: the three calls poll_next makes (their real implementations are decided per channel by back end K)
 pub struct EventsSource { pub steps: Ghost<Seq<Step>> }
 impl EventsSource {
@@ -29,6 +29,10 @@ impl EventsSource {
     #[verifier::external_body]
     pub fn register_stream_waker(&mut self, stream_id: u32, waker: &Waker)
         ensures final(self).steps@ == old(self).steps@.push(Step::RegisteredWaker(stream_id)),
+    { }
+    #[verifier::external_body]
+    pub fn drop_resources(&mut self, stream_id: u32)
+        ensures final(self).steps@ == old(self).steps@.push(Step::DroppedResources(stream_id)),
     { }
 }
 pub struct MutinyStream { pub stream_id: u32, pub events_source: EventsSource }
@@ -45,6 +49,12 @@ FNS = [
                    "r matches Poll::Ready(None) ==> final(self).events_source.steps@ =~= seq![Step::Consumed(old(self).stream_id, false), Step::AskedKeepRunning(old(self).stream_id, false)],"
                    "r is Pending ==> final(self).events_source.steps@ =~= seq![Step::Consumed(old(self).stream_id, false), Step::AskedKeepRunning(old(self).stream_id, true), Step::RegisteredWaker(old(self).stream_id)]"),
 ]
+IMPL_DROP = r"Drop\s+for\s+MutinyStream\s*<[^>]*>\s*(?=\{)"
+FNS.append(
+    # C10 / C07: a dropped stream gives ITS OWN id back to the channel, exactly once (the id becomes reusable; nobody else's does)
+    FnSpec(F, "drop", impl=IMPL_DROP, props=["C10", "C07"],
+           sig="pub fn drop(&mut self)", sig_anchor=r"fn drop\(&mut self\)",
+           ensures="final(self).stream_id == old(self).stream_id, final(self).events_source.steps@ == old(self).events_source.steps@.push(Step::DroppedResources(old(self).stream_id))"))
 for f in FNS:
     f.container = "impl MutinyStream"
 UNIT = Unit("mutiny_stream", FNS, spec=SPEC,
